@@ -248,6 +248,15 @@ pub fn rx_op() -> impl Strategy<Value = RxOp> {
     ]
 }
 
+/// like `rx_op` but only the operations that put packets on the wire (constructive, no filtering)
+pub fn rx_pkt_op() -> impl Strategy<Value = RxOp> {
+    prop_oneof![
+        2 => (lab_any(), 0u16..300).prop_map(|(lab, len)| RxOp::Complete { lab, len }),
+        4 => (lab_any(), prop_oneof![0u8..6, any::<u8>()], 1u16..400, 0u16..300, 1u8..4).prop_map(|(lab, id, len, cut, upto)| RxOp::Train { lab, id, len, cut, upto }),
+        2 => prop::collection::vec(any::<u8>(), 0..40).prop_map(RxOp::Raw),
+    ]
+}
+
 pub fn op_packets(op: &RxOp) -> Vec<Vec<u8>> {
     match op {
         RxOp::Complete { lab, len } => vec![ref_complete(*lab, 0x0800, &pdu_bytes(*len as usize, 7), &[], false)],
@@ -293,7 +302,7 @@ pub fn apply_rx_op<M: GseDecapMemory>(d: &mut Dec<M, TableManager>, op: &RxOp, p
 fn rand_strategy(t: Tier) -> BoxedStrategy<RandCase> {
     let big = t.pick(2048usize, 8192usize);
     let base = prop_oneof![
-        3 => rx_op().prop_filter("needs packets", |o| !matches!(o, RxOp::Provision(_) | RxOp::Reset)),
+        3 => rx_pkt_op(),
         1 => prop::collection::vec(any::<u8>(), 0..big).prop_map(RxOp::Raw),
         1 => (lab_any(), 300u16..8000).prop_map(|(lab, len)| RxOp::Train { lab, id: 1, len, cut: 200, upto: 3 }),
     ];
